@@ -477,3 +477,61 @@ def _dataclass_bind(P: Program, c: ClassInfo, call: ast.Call) -> list[str]:
     if missing and not any(k.arg is None for k in call.keywords):
         probs.append(f"missing required field(s) {missing}")
     return probs
+
+
+def serialisation_tolerance(ctx) -> None:
+    """Pulser's State._to_abstract_repr refuses a state whose overlap with the state rebuilt from its own amplitudes
+    differs from 1 by more than a tolerance.  An emu-mps state built by _from_state_amplitudes and left un-normalised
+    has overlap norm⁴ with its rebuilt twin, so the constructor must renormalise whenever |norm⁴ − 1| exceeds that
+    tolerance (the constant is read from the installed Pulser)."""
+    from ..interp import Interp, show, strip_typed
+    from ..algebra import is_const
+    prog = ctx.prog
+    P = util.pulser_program()
+    pf = P.func("pulser.backend.state.State._to_abstract_repr")
+    tol_p = None
+    for n in ast.walk(pf.node):
+        if isinstance(n, ast.If) and isinstance(n.test, ast.Compare) and len(n.test.ops) == 1 and isinstance(n.test.ops[0], ast.Gt) \
+                and "overlap" in util.text(n.test.left) and any(isinstance(x, ast.Raise) for x in n.body):
+            tol_p = util.const_value(P, pf.module, n.test.comparators[0], pf)
+    ctx.require(isinstance(tol_p, float), "APICOMPAT-norm: Pulser's serialisation tolerance not found in State._to_abstract_repr")
+    M = prog.cls("emu_mps.mps.MPS")
+    f = M.methods["_from_state_amplitudes"]
+    it = Interp(prog, M, inline=lambda c, r, d: False, loop_iters=(1,), max_paths=20000)
+    guards = set()
+    normalised_when_off = False
+    for p in it.run(f):
+        if p.status != "return":
+            continue
+        for c, t in p.cond_log:
+            c0 = strip_typed(c)
+            if c0[0] == "cmp" and c0[1] in (">", ">=") and strip_typed(c0[3])[0] == "const" and "norm()" in show(c0[2]):
+                q = strip_typed(c0[2])
+                # abs(X - 1.0)
+                if q[0] == "call" and q[1] == "abs" and len(q[2]) == 1:
+                    d = strip_typed(q[2][0])
+                    if d[0] == "bin" and d[1] == "Sub" and is_const(d[3], 1.0):
+                        x = strip_typed(d[2])
+                        power = x[3][1] if x[0] == "bin" and x[1] == "Pow" and strip_typed(x[3])[0] == "const" else 1
+                        base = strip_typed(x[2]) if x[0] == "bin" and x[1] == "Pow" else x
+                        if base[0] == "mcall" and base[2].endswith("norm"):
+                            guards.add((power, strip_typed(c0[3])[1], c0[1]))
+                            if t:
+                                scaled = any(e.kind == "call" and e.name.endswith("__imul__") or
+                                             (e.kind == "call" and e.name.endswith(("__rmul__", "__mul__"))) for e in p.events)
+                                normalised_when_off = normalised_when_off or scaled or "norm" in show(p.retval)
+    ctx.require(guards, "APICOMPAT-norm: normalisation guard of MPS._from_state_amplitudes not recognised")
+    ok = all(pw == 4 and tol <= tol_p for pw, tol, _ in guards)
+    ctx.ob("APICOMPAT-norm", "MPS._from_state_amplitudes renormalises at Pulser's tolerance", f.loc(), ok,
+           f"the state is renormalised whenever |norm⁴ − 1| > {sorted(g[1] for g in guards)[0]:g}, Pulser {util.pulser_version()} "
+           f"rejects |overlap − 1| > {tol_p:g} (overlap of the un-normalised state with its rebuilt twin is norm⁴)" if ok else
+           f"MPS._from_state_amplitudes renormalises only when |norm^{sorted(guards)[0][0]} − 1| > {sorted(guards)[0][1]:g}, but Pulser "
+           f"{util.pulser_version()} rejects a state whose self-overlap norm⁴ differs from 1 by more than {tol_p:g}: states with a "
+           f"norm error in between are left un-normalised and State._to_abstract_repr() (used when the qubit order is "
+           f"optimised) raises AbstractReprError")
+    ov = M.methods["overlap"]
+    rets = [p for p in Interp(prog, M, inline=lambda c, r, d: False).run(ov) if p.status == "return"]
+    r = strip_typed(rets[0].retval) if rets else ("const", None)
+    okov = r[0] == "bin" and r[1] == "Pow" and is_const(r[3], 2) and "abs(" in show(r[2]) and "inner(" in show(r[2])
+    ctx.ob("APICOMPAT-norm", "MPS.overlap is |<a|b>|²", ov.loc(), okov,
+           "overlap(a, b) = |inner(a, b)|² (so overlap(ψ, ψ) = norm⁴)" if okov else f"MPS.overlap returns {show(r)[:80]}")
